@@ -642,54 +642,85 @@ def compile_one(args):
     return res
 
 
-def tlc_trace(path, name):
-    return lib.tlc("Trace_DebugLayout", env={"TRACE": path}, workers=1, timeout=900, name=name, heap="2g")
-
-
 def judge_shard(args):
-    """Runs the trace spec on one shard; a rejected program is cut out and the rest is re-run (bounded rounds).
-    Returns (n_states, n_generated, accepted file ids, [(file_id, rejected event, index)])."""
+    """One TLC run over many histories.  Returns (distinct, generated, accepted ids, {rejected id: index of the rejected line within the history})."""
     wd, sh, files = args       # files: [(file_id, events)]
-    rejected = []
-    accepted = []
-    st = gen = 0
-    remaining = list(files)
-    for rnd in range(12):
-        if not remaining:
-            break
-        path = os.path.join(wd, "trace_%d_%d.ndjson" % (sh, rnd))
-        rows = [e for (_fid, evs) in remaining for e in evs]
-        lib.write_ndjson(path, rows)
-        r = tlc_trace(path, "trace_dl_%d" % sh)
-        st += r.distinct
-        gen += r.generated
-        if r.violation and "Invariant NotDone is violated" in r.out:
-            accepted += [fid for fid, _ in remaining]
-            remaining = []
-            break
-        m = re.search(r'<<"ACCEPTED_UPTO", (\d+), (\d+)>>', r.out)
+    path = os.path.join(wd, "trace_%d.ndjson" % sh)
+    rows = []
+    start = {}
+    for fid, evs in files:
+        start[fid] = len(rows)
+        rows += evs
+    lib.write_ndjson(path, rows)
+    r = lib.tlc("Trace_DebugLayout", env={"TRACE": path}, workers=1, timeout=1500, name="trace_dl_%d" % sh, heap="2g")
+    if not r.ok:
         inv = re.search(r"Invariant (\w+) is violated", r.out)
-        if not m and not inv:
-            raise lib.ToolError("Trace_DebugLayout: cannot interpret TLC output\n" + r.out[-3000:])
-        if inv and not m:
-            raise lib.ToolError("Trace_DebugLayout: machine invariant %s violated\n%s" % (inv.group(1), r.out[-3000:]))
-        upto = int(m.group(1))          # number of lines explained (1-based index of the last accepted line); the next one was rejected
-        pos = 0
-        bad = None
-        for k, (fid, evs) in enumerate(remaining):
-            if upto < pos + len(evs):
-                bad = k
-                break
-            pos += len(evs)
-        if bad is None:
-            raise lib.ToolError("Trace_DebugLayout stopped outside the trace (%d of %d)" % (upto, len(rows)))
-        fid, evs = remaining[bad]
-        rejected.append((fid, evs[upto - pos], upto - pos))
-        accepted += [f for f, _ in remaining[:bad]]
-        remaining = remaining[bad + 1:]
-    else:
-        raise lib.ToolError("Trace_DebugLayout: too many rejected programs in one shard")
-    return st, gen, accepted, rejected
+        raise lib.ToolError("Trace_DebugLayout: machine invariant %s violated\n%s" % (inv.group(1) if inv else "?", r.out[-3000:]))
+    ma, mp = re.search(r'<<\s*"ACCEPTED"', r.out), re.search(r'<<\s*"PROGRESS"', r.out)
+    if not ma or not mp:
+        raise lib.ToolError("Trace_DebugLayout: no postcondition output\n" + r.out[-3000:])
+    accepted = set(int(x) for x in re.findall(r"\d+", r.out[ma.end():mp.start()]))
+    tail = r.out[mp.end():]
+    tail = tail[:tail.find("Model checking")] if "Model checking" in tail else tail
+    progress = {int(a_): int(b_) for a_, b_ in re.findall(r"(\d+)\s*:>\s*(\d+)", tail)}
+    rejected = {}
+    for fid, evs in files:
+        if fid in accepted:
+            continue
+        last = progress.get(fid)           # 1-based line number (in the shard file) of the last explained line
+        idx = 1 if last is None else (last - start[fid])      # index within the history of the rejected line
+        rejected[fid] = min(idx, len(evs) - 1)
+    return r.distinct, r.generated, accepted, rejected
+
+
+# ---- binding self-test: histories with ONE corrupted field / one dropped event must be rejected at that line
+def corruptions(files):
+    out = []
+    def pick(pred):
+        for fid, evs in files:
+            for k, e in enumerate(evs):
+                if pred(evs, k, e):
+                    return fid, evs, k
+        return None
+    def clone(evs):
+        return json.loads(json.dumps(evs))
+    p = pick(lambda evs, k, e: e["ev"] == "instr" and e["offset"] > 0 and k + 1 < len(evs) and evs[k + 1]["ev"] == "instr")
+    if p:
+        fid, evs, k = p
+        c = clone(evs); c[k]["offset"] += 4
+        out.append(("instr_offset_plus_4", c, k))
+        c = clone(evs); del c[k]
+        out.append(("instr_event_dropped", c, k))
+    p = pick(lambda evs, k, e: e["ev"] == "label" and e["insrc"] and e["before"] and k > 0 and evs[k - 1]["ev"] == "instr" and evs[k - 1]["offset"] == max(e["before"]))
+    if p:       # the label recorded at the start of the instruction before it instead of at its end
+        fid, evs, k = p
+        c = clone(evs); c[k]["offset"] = c[k - 1]["offset"]; c[k - 1], c[k] = c[k], c[k - 1]
+        out.append(("label_before_its_instruction", c, k - 1))
+    p = pick(lambda evs, k, e: e["ev"] == "label" and e["insrc"] and e["time"] > 0)
+    if p:
+        fid, evs, k = p
+        c = clone(evs); c[k]["time"] -= 1
+        out.append(("label_time_minus_1", c, k))
+    p = pick(lambda evs, k, e: e["ev"] == "end" and k > 0 and evs[k - 1]["ev"] == "instr")
+    if p:       # end offset that misses the last instruction
+        fid, evs, k = p
+        c = clone(evs); c[k]["offset"] = c[k - 1]["offset"]
+        out.append(("end_misses_last_instruction", c, k))
+    p = pick(lambda evs, k, e: e["ev"] == "const" and e["value"].get("t") == "i")
+    if p:
+        fid, evs, k = p
+        c = clone(evs); c[k]["value"]["v"] += 1
+        out.append(("const_value_plus_1", c, k))
+    p = pick(lambda evs, k, e: e["ev"] == "local")
+    if p:
+        fid, evs, k = p
+        c = clone(evs); c[k]["reg"] += 1
+        out.append(("local_reg_plus_1", c, k))
+    res = []
+    for n, (name, evs, k) in enumerate(out):
+        evs[0] = dict(evs[0], id=900001 + n, corrupted=name)
+        res.append((900001 + n, name, evs, k))
+    return res
 
 
 def ev_class(prog, e):
@@ -710,7 +741,10 @@ def gen_programs(chk, n):
     return progs
 
 
-def run(chk, replay=None, corrupt=None):
+ID0 = 1001        # history ids start here (never 1..n, so TLC prints the progress map as a function)
+
+
+def run(chk, replay=None):
     quick = chk.tier == "quick"
     wd = lib.workdir("c18")
     if replay:
@@ -719,7 +753,7 @@ def run(chk, replay=None, corrupt=None):
         for s in progs[0]["scripts"]:
             s["key"] = tuple(s["key"])
     else:
-        progs = gen_programs(chk, 540 if quick else 9000)
+        progs = gen_programs(chk, 396 if quick else 9000)
     with ThreadPoolExecutor(max_workers=8) as ex:
         results = list(ex.map(compile_one, [(wd, n, p) for n, p in enumerate(progs)]))
     files = []
@@ -742,35 +776,73 @@ def run(chk, replay=None, corrupt=None):
             continue
         per_fmt.setdefault(tag, [0, 0])[0] += 1
         try:
-            evs = events_for(prog, res["dbg"], res["bin"], res["n"])
+            evs = events_for(prog, res["dbg"], res["bin"], res["n"] + ID0)
         except (LayoutError, struct.error) as e:
             chk.report("layout:%s" % tag, "cannot walk the scripts of the written file: %s" % e, {"program": prog})
             continue
-        files.append((res["n"], evs))
-    if corrupt is not None:
-        files = corrupt(files)
+        files.append((res["n"] + ID0, evs))
     chk.set("compiled_per_format", {k: v[0] for k, v in sorted(per_fmt.items())})
     chk.set("rejected_per_format", {k: v[1] for k, v in sorted(per_fmt.items()) if v[1]})
-    nsh = 1 if len(files) < 16 else 8
+    selftest = corruptions(files) if not replay else []
+    nsh = 1 if len(files) < 16 else 5
     shards = [files[j::nsh] for j in range(nsh)]
+    shards[0] = shards[0] + [(cid, evs) for cid, _name, evs, _k in selftest]
     with ThreadPoolExecutor(max_workers=nsh) as ex:
-        outs = list(ex.map(judge_shard, [(wd, j, s) for j, s in enumerate(shards)]))
-    by_id = {n: p for n, p in enumerate(progs)}
+        outs = list(ex.map(judge_shard, [(wd, j, sh) for j, sh in enumerate(shards)]))
+    by_id = {n + ID0: p for n, p in enumerate(progs)}
+    ev_by_id = dict(files)
     kinds = {}
+    all_rejected = {}
     for st, gen, accepted, rejected in outs:
         chk.add("states", st)
         chk.add("transitions", gen)
-        chk.add("traces_validated_against_impl", len(accepted) + len(rejected))
-        chk.add("histories_accepted", len(accepted))
-        for fid, e, idx in rejected:
+        all_rejected.update(rejected)
+        for fid in accepted:
+            if fid < 900000:
+                chk.add("histories_accepted")
+                chk.add("traces_validated_against_impl")
+            else:
+                name = [x[1] for x in selftest if x[0] == fid][0]
+                raise lib.ToolError("binding self-test: the corrupted history `%s` was ACCEPTED by Trace_DebugLayout" % name)
+        for fid, idx in rejected.items():
+            if fid >= 900000:
+                continue
+            chk.add("traces_validated_against_impl")
             prog = by_id[fid]
+            e = ev_by_id[fid][idx]
             tag = prog["fmt"] + prog["game"]
             chk.report("reject:%s:%s" % (tag, ev_class(prog, e)),
                        "debug info of a %s program is not explained by the layout specification at event %s" % (tag, json.dumps(e)[:300]),
-                       {"program": dict(prog, scripts=[dict(s, key=list(s["key"])) for s in prog["scripts"]]), "rejected_event": e, "event_index": idx})
+                       {"program": dict(prog, scripts=[dict(s_, key=list(s_["key"])) for s_ in prog["scripts"]]), "rejected_event": e, "event_index": idx})
+    st_report = {}
+    for cid, name, evs, k in selftest:
+        if cid not in all_rejected:
+            raise lib.ToolError("binding self-test: corrupted history `%s` neither accepted nor rejected" % name)
+        st_report[name] = "rejected at line %d (corrupted line %d): %s" % (all_rejected[cid], k, json.dumps(evs[min(all_rejected[cid], len(evs) - 1)])[:160])
+        if all_rejected[cid] != k:
+            raise lib.ToolError("binding self-test: corrupted history `%s` rejected at line %d, corruption is at line %d" % (name, all_rejected[cid], k))
+    chk.set("binding_selftest", st_report)
+    feat = {}
+    def bump(k, n=1):
+        feat[k] = feat.get(k, 0) + n
     for fid, evs in files:
+        sizes = []
         for e in evs:
             kinds[e["ev"]] = kinds.get(e["ev"], 0) + 1
+            if e["ev"] == "script":
+                sizes = e["sizes"]
+                bump("scripts_with_varying_instruction_sizes", 1 if len(set(sizes)) > 1 else 0)
+                bump("scripts_empty", 1 if not sizes else 0)
+            elif e["ev"] == "label":
+                bump("labels_from_source" if e["insrc"] else "labels_compiler_generated")
+                if e["offset"] == sum(sizes):
+                    bump("labels_at_script_end")
+            elif e["ev"] == "local":
+                bump("locals_temporaries" if e["name"].startswith("temp") else "locals_named")
+        text = by_id[fid]["text"]
+        bump("programs_with_difficulty_switch", 1 if re.search(r"\d:[-\d]", text) and by_id[fid]["fmt"] == "ecl" else 0)
+        bump("programs_with_furigana_string", 1 if '"|' in text else 0)
+    chk.set("features", feat)
     chk.set("events", kinds)
     for fid, evs in files[:2]:
         chk.sample({"format": by_id[fid]["fmt"] + by_id[fid]["game"], "source": by_id[fid]["text"][:600], "events": evs[:6]})
